@@ -1,5 +1,5 @@
 (* CollectionsScripts.v — hand translation of the four LOOP-FREE script-implemented collection
-   commands into compositions of the native command models (Collections.v), as the alias-command
+   commands, and of array_contains and set_from_array (one for-in loop each), into compositions of the native command models (Collections.v), as the alias-command
    wrapper (duckscript_sdk/src/types/command.rs AliasCommand::run) runs their script.ds:
 
      wrapper            fewer than `arguments_amount` arguments: Error "Invalid arguments provided."
@@ -12,8 +12,8 @@
                         is_defined scope::..::value
    An output variable assigned `None` is removed, so `${var}` then expands to the empty string and
    `is_defined var` is false.  `equals a b` is string equality (std/string/equals/mod.rs).
-   DEFINITIONS ONLY.  The five scripts with for-in loops (array_contains, array_concat, array_join,
-   set_from_array, map_contains_value) are not translated: correspondence run only. *)
+   DEFINITIONS ONLY.  The three other scripts with for-in loops (array_concat, array_join,
+   map_contains_value) are not translated: correspondence run only. *)
 From stdpp Require Import gmap list.
 From Coq Require Import NArith ZArith.
 Require Import DS.Collections.
@@ -54,13 +54,118 @@ Definition script_map_contains_key (args : list str) (s : mstate) : outcome (cre
   | _ => Done (Error EArgs, s)
   end.
 
-Definition step_script (c : cmd) (args : list str) (s : mstate) : option (outcome (cres * mstate)) :=
+(* ---- a script with a for-in loop: array_contains ------------------------------------------------
+     scope::..::index = set false
+     scope::..::value = set ${scope::..::argument::2}
+     scope::..::counter = set 0
+     for scope::..::next_value in ${scope::..::argument::1}
+         scope::..::found = equals ${scope::..::next_value} ${scope::..::value}
+         if ${scope::..::found}
+             scope::..::index = set ${scope::..::counter}
+             scope::..::argument::1 = set            # unset: the next `for` test sees the handle ""
+         end
+         scope::..::counter = calc ${scope::..::counter} + 1
+     end
+     set ${scope::..::index}
+   for-in (flowcontrol/forin/mod.rs): every test expands the handle variable again and asks
+   get_next_iteration(iteration, handle, state) = the iteration-th item of the live list as text. *)
+Definition next_iteration (it : nat) (h : str) (st : store) : option str :=
+  match st !! h with
+  | Some (HList l) => elem_str <$> l !! it
+  | _ => None
+  end.
+Record ac_vars := AC { ac_index : str; ac_arg1 : str; ac_counter : nat }.
+Fixpoint ac_loop (fuel : nat) (value : str) (it : nat) (v : ac_vars) (s : mstate) : outcome ac_vars :=
+  match fuel with
+  | O => Fuel
+  | S f =>
+    match next_iteration it (ac_arg1 v) (hs s) with
+    | None => Done v
+    | Some next_value =>
+      let found := str_eqb next_value value in
+      let v1 := if found then AC (dec_nat (ac_counter v)) [] (ac_counter v) else v in
+      ac_loop f value (S it) (AC (ac_index v1) (ac_arg1 v1) (S (ac_counter v1))) s
+    end
+  end.
+(* enough fuel unless the empty string names a live list (excluded in the theorem) *)
+Definition ac_fuel (s : mstate) (h : str) : nat :=
+  match hs s !! h with Some (HList l) => S (S (length l)) | _ => 1 end.
+Definition script_array_contains (args : list str) (s : mstate) : outcome (cres * mstate) :=
+  match args with
+  | a1 :: a2 :: _ =>
+    match ac_loop (ac_fuel s a1) a2 0 (AC s_false a1 0) s with
+    | Done v => Done (Cont (Some (ac_index v)), s)
+    | Panic => Panic
+    | Fuel => Fuel
+    end
+  | _ => Done (Error EArgs, s)
+  end.
+
+(* ---- set_from_array -------------------------------------------------------------------------------
+     if not is_array ${scope::..::argument::1}
+         trigger_error "Invalid input, non array handle or array not found."
+     end
+     scope::..::set = set_new
+     for scope::..::next_value in ${scope::..::argument::1}
+         set_put ${scope::..::set} ${scope::..::next_value}
+     end
+     set ${scope::..::set}
+   (the argument is assumed to reach is_array verbatim: not so for the F7 classes, see C09) *)
+Section SetFromArray.
+Variable rnd : nat -> handle.
+Fixpoint sfa_loop (fuel : nat) (a1 key : str) (it : nat) (s : mstate) : outcome (option ekind * mstate) :=
+  match fuel with
+  | O => Fuel
+  | S f =>
+    match next_iteration it a1 (hs s) with
+    | None => Done (None, s)
+    | Some next_value =>
+      match cmd_set_put [key; next_value] s with
+      | Done (Cont _, s') => sfa_loop f a1 key (S it) s'
+      | Done (Error e, s') => Done (Some e, s')
+      | Panic => Panic
+      | Fuel => Fuel
+      end
+    end
+  end.
+Definition script_set_from_array (args : list str) (s : mstate) : outcome (cres * mstate) :=
+  match args with
+  | [] => Done (Error EArgs, s)
+  | a1 :: _ =>
+    match cmd_is_array [a1] s with
+    | Done (Cont (Some t), _) =>
+      if str_eqb t s_true then
+        match cmd_set_new rnd [] s with
+        | Done (Cont (Some key), s1) =>
+          match sfa_loop (S (S (match hs s !! a1 with Some (HList l) => length l | _ => 0 end)))
+                         a1 key 0 s1 with
+          | Done (None, s2) => Done (Cont (Some key), s2)
+          | Done (Some e, s2) => Done (Error e, s2)
+          | Panic => Panic
+          | Fuel => Fuel
+          end
+        | other => other
+        end
+      else Done (Error ETrigger, s)
+    | Done (_, _) => Done (Error ETrigger, s)
+    | Panic => Panic
+    | Fuel => Fuel
+    end
+  end.
+End SetFromArray.
+
+Definition step_script (rnd : nat -> handle) (c : cmd) (args : list str) (s : mstate)
+    : option (outcome (cres * mstate)) :=
   match c with
+  | CSetFromArray => Some (script_set_from_array rnd args s)
   | CArrayIsEmpty => Some (script_array_is_empty args s)
   | CMapIsEmpty => Some (script_map_is_empty args s)
   | CSetIsEmpty => Some (script_set_is_empty args s)
   | CMapContainsKey => Some (script_map_contains_key args s)
+  | CArrayContains => Some (script_array_contains args s)
   | _ => None
   end.
 Definition loop_free_script (c : cmd) : bool :=
   match c with CArrayIsEmpty | CMapIsEmpty | CSetIsEmpty | CMapContainsKey => true | _ => false end.
+Definition translated_script (c : cmd) : bool :=
+  match c with CArrayContains | CSetFromArray => true | _ => loop_free_script c end.
